@@ -13,7 +13,7 @@ Definition tas_wf (s : tas) : Prop :=
    well formed and marks every bound alias as used *)
 Definition tas_inv (s : tas) : Prop :=
   tas_wf s /\ NoDup (map fst (ts_t2a s)) /\ WF (ts_va s) /\
-  (forall b t, look s b = Some t -> abs (a_pool (ts_va s)) b = false /\ 1 <= b <= ts_max s).
+  (forall b t, look s b = Some t -> abs (a_pool (ts_va s)) b = false /\ 1 <= b <= ts_max s /\ t <> []).
 
 Lemma nlist_eqb_refl t : nlist_eqb t t = true. Proof. now apply nlist_eqb_eq. Qed.
 Lemma nlist_eqb_neq t u : t <> u -> nlist_eqb t u = false.
@@ -301,8 +301,9 @@ Proof.
   - intros t1 al b Hg Hin. unfold look. cbn [ts_a2t]. now apply (T5 t1 al b).
   - split; [exact T2|]. split; [exact Hva'|]. intros b t0 Hb. unfold look in Hb. cbn [ts_a2t] in Hb. rewrite Habs.
     destruct (N.eqb_spec b a) as [->|Hne].
-    + split; [now rewrite andb_false_r|]. apply orb_false_iff in Eguard as [Eg E3]. apply orb_false_iff in Eg as [_ E2].
-      apply N.ltb_ge in E2, E3. cbn [ts_max]. lia.
+    + split; [now rewrite andb_false_r|]. apply orb_false_iff in Eguard as [Eg E3]. apply orb_false_iff in Eg as [E1 E2].
+      apply N.ltb_ge in E2, E3. cbn [ts_max]. split; [lia|].
+      rewrite T3 in Hb. inversion Hb; subst t0. destruct t; [discriminate|discriminate].
     + rewrite (T4 b Hne), (F3 b Hne) in Hb. destruct (Hu b t0 Hb) as [U1 U2]. rewrite U1. split; [reflexivity|exact U2].
 Qed.
 
